@@ -77,7 +77,23 @@ class Gen30(c05lib.Gen05):
     a = super(Gen30, self).gen(kind, meta)
     if kind == 'addformula' and a and a[0] == 'AddColumn' and any(m in a[3].get('formula', '') for m in ('frozenset', '{')):
       a[3]['type'] = self.r.choice(SET_TYPES)
+    for part in (a or []):
+      if isinstance(part, dict) and isinstance(part.get('formula'), str):
+        part['formula'] = guard_str(part['formula'])
     return a
+
+
+GUARD = '%s if not isinstance(%s, (set, frozenset, dict, list, tuple)) else len(%s)'
+
+
+def guard_str(formula):
+  """str(<cell>) written IN a formula is the formula's own computation: when the cell holds a set (or a container
+  with a set inside), Python's str() gives text in hash order whatever the engine does, so such a formula is not a
+  deterministic function of its inputs and a difference in its column says nothing about the engine.  The generated
+  formulas therefore apply str() to scalars only; the engine's own conversions of sets to text (objtypes.safe_repr,
+  usertypes convert, encode_object) are untouched and remain under test."""
+  import re
+  return re.sub(r'str\((\$[A-Za-z0-9_.]+|v)\)', lambda m: 'str(%s)' % (GUARD % ((m.group(1),) * 3)), formula)
 
 
 CHOICES = ['Apple', 'apple', 'APPLE', 'Pear', 'pear', 'Éa', 'éa', 'ÉA', '10', '2', '02', 'x1', 'X1', 'blue', 'Blue',
